@@ -470,7 +470,15 @@ def fam_through_record(rng):
     axis = rng.randint(1, d)
     # (sort and reducers below a top-level record array give a Record of arrays, not an array of records -- DESIGN 6.3:
     # the per-field values are right, the container is not what the property's "every other level" describes; not driven)
-    op = rng.choice(["num", "localindex", "combinations", "rpad"])
+    op = rng.choice(["num", "localindex", "combinations", "rpad", "flatten"])
+    if op == "flatten":
+        # flatten below the records: every field has two list levels, the inner one is merged into the outer one
+        subT = [gen_pure(rng, 2, optlist=0.15) for _ in keys]
+        subT = [t[1] if t[0] == "option" else t for t in subT]
+        T = ("record", None if istuple else keys, subT)
+        vals = [L.gen_value(rng, T) for _ in range(L.toplen(rng, 0, 4))]
+        lay = L.Enc(rng).encode(vals, T)
+        axis = 2
     n, repl = rng.randint(1, 3), rng.random() < 0.4
     target, clip = rng.randint(0, 4), rng.random() < 0.5
     asc, stable = rng.random() < 0.5, rng.random() < 0.5
@@ -497,6 +505,8 @@ def fam_through_record(rng):
             return R.sort(fv, axis, asc)
         if op == "reduce":
             return R.reduce_typed(fv, fT, axis, red, mask, False)
+        if op == "flatten":
+            return R.flatten(fv, axis)
         return R.rpad(fv, target, axis, clip)
     try:
         per = {}
@@ -507,7 +517,8 @@ def fam_through_record(rng):
     ref = [(tuple(per[kk][i] for kk in keys) if istuple else {kk: per[kk][i] for kk in keys}) for i in range(len(vals))]
     line = {"num": "num %d" % axis, "localindex": "localindex %d" % axis,
             "combinations": "combinations %d %d %d" % (n, repl, axis), "rpad": "rpad %d %d %d" % (target, axis, clip),
-            "sort": "sort %d %d %d" % (axis, asc, stable), "reduce": "reduce %s %d %d 0" % (red, axis, mask)}[op]
+            "sort": "sort %d %d %d" % (axis, asc, stable), "reduce": "reduce %s %d %d 0" % (red, axis, mask),
+            "flatten": "flatten %d" % axis}[op]
     return Case("%s %s" % (line, lay.tokens()),
                 expect_value(ref, "%s at axis=%d inside the fields of %r" % (op, axis, vals), cmp=(L.same if op == "combinations" else loose)),
                 {"value": vals, "type": T})
